@@ -520,11 +520,14 @@ tpt_msg_cbsend(tp_p tp, tpt_p src, uint32_t flags,
 		}
 		if (0 == tpt_msg_one_by_one_send_next__int(tp, src, msg_data))
 			return (0); /* OK, sheduled. */
+		/* Nothing sheduled: nobody else will free msg_data. */
 		if (TP_MSG_F_SELF_DIRECT == ((TP_BMSG_F_SELF_SKIP | TP_MSG_F_SELF_DIRECT) & flags)) {
 			done_cb(src, msg_data->send_msg_cnt,
 			    msg_data->error_cnt, udata);
+			free(msg_data);
 			return (0);
 		}
+		free(msg_data);
 		return (ESPIPE);
 	}
 	/* Like SYNC but with cb. */
